@@ -340,8 +340,29 @@ static void c02_hist(const HistSet& hs, const std::vector<unsigned>& seq, unsign
         have_kept = true;
       }
     }
+    if (mode == 5 || mode == 6) {
+      // lookup maps on every object of the parsed tree (the parser never builds one; a user does before many
+      // lookups); mode 6 additionally empties every object member by member, so that emptied objects still own
+      // their member array and their map when the document is parsed again / destroyed
+      std::vector<typename Doc::NodeType*> stack = {&doc};
+      while (!stack.empty()) {
+        typename Doc::NodeType* n = stack.back();
+        stack.pop_back();
+        if (n->IsObject()) {
+          n->CreateMap(doc.GetAllocator());
+          for (auto it = n->MemberBegin(); it != n->MemberEnd(); ++it) stack.push_back(&it->value);
+        } else if (n->IsArray())
+          for (auto it = n->Begin(); it != n->End(); ++it) stack.push_back(&*it);
+      }
+      if (mode == 6 && doc.IsObject())
+        while (doc.Size() > 0) {
+          auto nm = doc.MemberBegin()->name.GetStringView();
+          std::string k(nm.data(), nm.size());
+          if (!doc.RemoveMember(StringView(k.data(), k.size()))) break;
+        }
+    }
     Doc fresh;
-    if (mode == 0 || mode == 2 || mode == 3 || mode == 4) {
+    if (mode == 0 || mode == 2 || mode == 3 || mode == 4 || mode == 5 || mode == 6) {
       doc.Parse(bufs[last]->p, bufs[last]->n);
       fresh.Parse(bufs[last]->p, bufs[last]->n);
       if (have_kept && (!keep.IsString() || std::string(keep.GetStringView().data(), keep.GetStringView().size()) != kept))
@@ -481,10 +502,10 @@ int main(int argc, char** argv) {
     fhv.chunk = 64;
     fhv.rule = "all ordered pairs (X,Y) over the " + std::to_string(hs.S.size()) + "-text set (valid, invalid, truncated, deep) with Y valid, in 4 histories on ONE document (Parse X ; Parse Y / Parse X ; ParseOnDemand(Y,/a) ; Parse Y / Parse X ; ParseSchema(Y) ; Parse Y / Parse X ; allocator.Clear() ; Parse Y [pool]), pool and freeing allocator: the document read back through the accessors must be exactly Y's value";
     fpairs.name = "H2_reuse_pairs";
-    fpairs.count = (uint64_t)hs.S.size() * hs.S.size() * 5;
+    fpairs.count = (uint64_t)hs.S.size() * hs.S.size() * 7;
     fpairs.group = "H2";
     fpairs.rule = "reuse histories: all ordered pairs (X,Y) over a " + std::to_string(hs.S.size()) +
-                  "-text set (valid, invalid, truncated, deep) parsed into ONE document in 5 modes (Parse;Parse / Parse;ParseOnDemand(/a) / Parse;allocator.Clear();Parse / Parse;a string value moved out and kept by the caller;Parse - these two for the pool allocator - / Parse;root.SetString(copy);Parse), pool + freeing + tracking allocator; result compared with a fresh document, the kept string must be unchanged";
+                  "-text set (valid, invalid, truncated, deep) parsed into ONE document in 7 modes (Parse;Parse / Parse;ParseOnDemand(/a) / Parse;allocator.Clear();Parse / Parse;a string value moved out and kept by the caller;Parse - these two for the pool allocator - / Parse;root.SetString(copy);Parse / Parse;CreateMap on every object;Parse / Parse;CreateMap on every object;RemoveMember of every root member;Parse), pool + freeing + tracking allocator; result compared with a fresh document, the kept string must be unchanged";
     fpairs.chunk = 64;
     if (!quick) {
       ftriples.name = "H3_reuse_triples";
@@ -634,8 +655,8 @@ int main(int argc, char** argv) {
       std::vector<unsigned> seq;
       unsigned mode = 0;
       if (f.name == "H2_reuse_pairs") {
-        mode = (unsigned)(idx % 5);
-        uint64_t r = idx / 5;
+        mode = (unsigned)(idx % 7);
+        uint64_t r = idx / 7;
         seq = {(unsigned)(r / hs.S.size()), (unsigned)(r % hs.S.size())};
       } else {
         size_t m = std::min<size_t>(hs.S.size(), 40);
